@@ -117,9 +117,9 @@ def value_for(ex, sym, i, d):
         return c
     if sym in ('identifier',):
         c = SymObj({mast.Identifier}, f'identifier@{i}', prov='param')
-        parts = SymSeq(f'identifier@{i}.parts', lambda e, l: pysym.mk_str(l), prov='param')
-        parts.nonempty = True
-        ex.assume(parts.len > 0)
+        # a part is a name or - after `identifier DOT star` - a Star node
+        # (the first part is always a name: the identifier rules start from `id` / a quoted string)
+        parts = identifier_parts(ex, f'identifier@{i}.parts')
         c.fields.update(parts=parts, alias=None, parentheses=False)
         return c
     return node_like(ex, f'{sym}@{i}')
@@ -180,6 +180,23 @@ def optional_attrs():
     return _OPTIONAL
 
 
+def identifier_parts(ex, label):
+    """type contract of Identifier.parts as the identifier rules build it: a non-empty list whose first element is a name and whose later elements are
+    names or - after `identifier DOT star` - Star nodes"""
+    from mindsdb_sql.parser import ast as mast
+
+    def part(e, l):
+        if l.endswith('[0]'):
+            return pysym.mk_str(l)
+        o = SymObj({str, mast.Star}, l, prov='param')
+        o.fields.update(alias=None, parentheses=False)          # what a Star built by the `star` rule carries
+        return o
+    parts = SymSeq(label, part, prov='param')
+    parts.nonempty = True
+    ex.assume(parts.len > 0)
+    return parts
+
+
 def node_like(ex, label, attribute=False):
     """value of a nonterminal whose type contract is 'some well-formed value of that rule': attributes, subscripts, calls of its
     methods, iteration and operators are total and yield values of the same kind (the rule's own action is a separate obligation).
@@ -202,6 +219,10 @@ def install_oracles(ex):
 
     def oracle(ex_, obj, attr):
         if getattr(obj, 'any_attr', False):
+            from mindsdb_sql.parser import ast as mast_
+            if attr == 'parts' and obj.cls_set is not None and obj.cls_set == frozenset({mast_.Identifier}):
+                # an expression value that the action has found to be an Identifier: its parts follow the identifier contract
+                return identifier_parts(ex_, ex_.fresh_name(f'{obj.label}.parts'))
             if attr in LIST_ATTRS:
                 # type contract: these attributes of statement / expression nodes hold lists (of unknown length) of nodes
                 seq = SymSeq(ex_.fresh_name(f'{obj.label}.{attr}'), lambda e, l: node_like(e, l), prov='param')
@@ -225,6 +246,8 @@ def install_oracles(ex):
     ex.method_stubs['__str__'] = lambda ex_, obj, a, k: pysym.mk_str(ex_.fresh_name(f'str({obj.label})'))
     ex.method_stubs['int'] = lambda ex_, v, a, k: pysym.mk_int(ex_.fresh_name('int()'))
     ex.stubs[('mindsdb_sql.parser.utils', 'tokens_to_string')] = lambda ex_, a, k, node=None: pysym.mk_str(ex_.fresh_name('tts'))
+    ex.recursion_ok['.to_string'] = 3          # an identifier prints its parts (a Star part prints itself) and its alias, which is an identifier: depth 2
+    ex.recursion_ok['.get_string'] = 3
 
     def path_parts(ex_, a, k, node=None):
         s = a[0]
